@@ -1566,29 +1566,40 @@ def stub_shuffle(ctx, eqn, ins):
     the key.  Over-approximates the one-round sort-by-random-bits implementation (whose rank encoding makes
     'the drawn cells are distinct' a pigeonhole query: Connector 4x4 reset unknown at 120 s).  Only the unbatched 1-D
     case is stubbed; any other shape falls back to executing the implementation symbolically."""
-    if len(ins) != 2 or ins[0].a.ndim != 1 or ins[1].a.ndim != 1 or eqn.outvars[0].aval.shape != ins[1].shape:
+    if len(ins) != 2:
         return None
     key, x = ins
-    n, dt = x.shape[0], x.dtype
-    mk = ("shuffle", _lane_id(key.obj()), n)
-    if mk not in ctx.memo:
-        pi = ctx.fresh_arr("shuffle_pi", (n,), np.int32, 0, n - 1).a
-        if n > 1:
-            ctx.assumptions.append(z3.Distinct(*[to_z3(p, np.int32) for p in pi]))
-        ctx.memo[mk] = pi
-    pi = ctx.memo[mk]
-    xo = x.obj()
-    out = np.empty((n,), dtype=object)
-    ident = x.conc and dt.kind in "iu" and np.array_equal(x.a, np.arange(n))
-    for r in range(n):
-        if ident:
-            out[r] = s_convert(pi[r], np.int32, dt)
-            continue
-        val = xo[n - 1]
-        for i in range(n - 2, -1, -1):
-            val = ite(s_cmp("eq", pi[r], i, np.int32), xo[i], val, dt)
-        out[r] = val
-    return [SV(out, dt)]
+    kshape = tuple(key.shape[:-1])          # () or the batch dims added by vmap
+    oshape = aval_shape(eqn.outvars[0].aval)
+    if len(kshape) > 1 or len(oshape) != len(kshape) + 1:
+        ctx.stats.setdefault("stub_fallback", []).append("_shuffle" + str((key.shape, x.shape)))
+        return None
+    n, dt = oshape[-1], x.dtype
+    if not ((x.a.ndim == 1 and x.shape == (n,)) or (kshape and tuple(x.shape) == tuple(oshape))):
+        ctx.stats.setdefault("stub_fallback", []).append("_shuffle" + str((key.shape, x.shape)))
+        return None
+    keys = key.obj()
+    outs = np.empty(oshape, dtype=object)
+    for b in (np.ndindex(*kshape) if kshape else [()]):
+        mk = ("shuffle", _lane_id(keys[b] if kshape else keys), n)
+        if mk not in ctx.memo:
+            pi = ctx.fresh_arr("shuffle_pi", (n,), np.int32, 0, n - 1).a
+            if n > 1:
+                ctx.assumptions.append(z3.Distinct(*[to_z3(p, np.int32) for p in pi]))
+            ctx.memo[mk] = pi
+        pi = ctx.memo[mk]
+        xo = x.obj() if x.a.ndim == 1 else x.obj()[b]
+        xc = x.a if (x.conc and x.a.ndim == 1) else (x.a[b] if x.conc else None)
+        ident = xc is not None and dt.kind in "iu" and np.array_equal(xc, np.arange(n))
+        for r in range(n):
+            if ident:
+                outs[b + (r,)] = s_convert(pi[r], np.int32, dt)
+                continue
+            val = xo[n - 1]
+            for i_ in range(n - 2, -1, -1):
+                val = ite(s_cmp("eq", pi[r], i_, np.int32), xo[i_], val, dt)
+            outs[b + (r,)] = val
+    return [SV(outs, dt)]
 
 
 def stub_gumbel(ctx, eqn, ins):
